@@ -78,5 +78,14 @@ func CaseVariants(n string) []string {
 	if up != out[0] {
 		out = append(out, up, string(b))
 	}
+	// letters that Unicode case mapping folds to ASCII (KELVIN SIGN -> k, LONG S folds to s): an HTML parser
+	// lower-cases ASCII only, so these are other, unknown names (not as first character: "<" followed by a
+	// non-ASCII character is text, not a tag)
+	if i := strings.IndexByte(out[0][1:], 'k'); i >= 0 {
+		out = append(out, out[0][:i+1]+string(rune(0x212a))+out[0][i+2:])
+	}
+	if i := strings.IndexByte(out[0][1:], 's'); i >= 0 {
+		out = append(out, out[0][:i+1]+string(rune(0x17f))+out[0][i+2:])
+	}
 	return out
 }
